@@ -123,7 +123,7 @@ theorem burst_body_tail (H : BurstObserved' pl body tail acq rel) (hok : Payload
       ∧ Quiescent (lrunState c s1 (body ++ tail)) := by
   have htl := H.tail_len
   have hbase := synced_end H hok hdash c hE hF s1 hq N
-  have hg := phase_garbage H hok c s1 hq N hbase (tail.length - 31) (by omega)
+  have hg := phase_garbage H.tracked hok c s1 hq.warm N.late hbase (tail.length - 31) (by omega)
   unfold GarbageInv at hg
   have hall : body.length + (31 + (tail.length - 31)) = (body ++ tail).length := by
     rw [List.length_append]; omega
